@@ -67,7 +67,9 @@ def sanitize(module, snap=None, roundtrip=True, failure_path=False,
                     out.append(("irsan:block-outside-interval",
                                 f"{s.name}: block {b.offset}+{b.size} in "
                                 f"interval of size {bi.size}"))
-                if b.address is None:
+                if b.address is None and not failure_path:
+                    # (addresses are optional in GTIRB; after a completed
+                    # rewrite every interval has been laid out)
                     out.append(("irsan:block-without-address", s.name))
                 if b.size and prev_end is not None and b.offset < prev_end:
                     new = snap is None or id(b) not in snap.blocks or \
@@ -161,10 +163,18 @@ def sanitize(module, snap=None, roundtrip=True, failure_path=False,
         # (a final re-layout may permute unconnected intervals), else
         # addresses
         io_ = interval_order or {}
-        order = sorted(s.byte_blocks,
-                       key=lambda b: (io_.get(id(b.byte_interval), 1 << 30),
-                                      b.address or 0, b.size != 0))
-        for k, b in enumerate(order):
+        allb = sorted(s.byte_blocks,
+                      key=lambda b: (io_.get(id(b.byte_interval), 1 << 30),
+                                     b.address or 0, b.size != 0))
+        # intervals the caller does not know (created by the rewrite, e.g.
+        # for an inserted function) are no physical neighbours of the rest
+        groups = {}
+        for b in allb:
+            gk = 0 if (not io_ or id(b.byte_interval) in io_) \
+                else id(b.byte_interval)
+            groups.setdefault(gk, []).append(b)
+        for order, k, b in ((g, k, b) for g in groups.values()
+                            for k, b in enumerate(g)):
             if b.size or (snap is not None and id(b) in snap.zero_sized):
                 continue
             if snap is not None and id(b) not in snap.blocks and \
